@@ -12,7 +12,8 @@ def run(ctx, res):
         "literal pause_on_char = true; (R3) each endpoint a seam formatter returns is the seam, a pausing-scanner result or "
         "that + 1, so a seam formatter never reaches beyond the blank run (at most the blank lines) adjacent to the seam; "
         "(R4) the block formatter's ranges are clamped per line by min(_, first non-blank); (R5) merging two formatter ranges never covers a "
-        "position outside both (complete table over endpoint orderings, sorted or not).  Decides these clauses, not the "
+        "position outside both (complete table over endpoint orderings, sorted or not); (R6) the cleaned text is only ever changed by deleting ranges, back to "
+        "front (no normalisation pass); (R7) the block formatter is handed the right head/tail pair (pair indices).  Decides these clauses, not the "
         "verbatim survival of every stretch.")
     res.trusted += ["driver fact extraction and the abstract interpreter"]
     deletion.scanner_tables(ctx, res, "C14.R1")
@@ -20,3 +21,6 @@ def run(ctx, res):
     deletion.seam_ranges(ctx, res, "C14.R3")
     deletion.block_ranges(ctx, res, "C14.R4")
     intervals.union_rule(ctx, res, "C14.R5")
+    deletion.sinks(ctx, res, "C14.R6", "C14.R6b")
+    from . import c12
+    c12.pair_indices(ctx, res, "C14.R7")
